@@ -1031,6 +1031,53 @@ def check_krylov(inp):
         return [f'{alg} raised {type(e).__name__}: {e}']
     return fails
 
+
+# ------------------------------------------------------------------------------------------- C07
+
+@check('molecular')
+def check_molecular(inp):
+    import pytenet as ptn
+    from refs import models as Mo
+    tk = arr(inp['tkin']); vi = arr(inp['vint'])
+    if np.all(tk.imag == 0) and np.all(vi.imag == 0):
+        tk = tk.real.astype(float); vi = vi.real.astype(float)
+    L = tk.shape[0]
+    kind, opt = inp['kind'], inp['optimize']
+    f = ptn.molecular_hamiltonian_mpo if kind == 'spinless' else ptn.spin_molecular_hamiltonian_mpo
+    t0, v0 = tk.copy(), vi.copy()
+    try:
+        mpo = f(tk, vi, optimize=opt)
+    except Exception as e:
+        d_ = 2 if kind == 'spinless' else 4
+        if opt and d_ ** L <= 256:
+            refz = _num(Mo.molecular(tk.tolist(), vi.tolist()) if kind == 'spinless' else Mo.spin_molecular(tk.tolist(), vi.tolist()))
+            if not np.any(refz):
+                return []      # identically-zero operator: outside the property (the chain compiler needs a non-zero term)
+        return [f'{kind} molecular Hamiltonian (L={L}, optimize={opt}) raised {type(e).__name__}: {e}']
+    fails = []
+    if not np.array_equal(tk, t0) or not np.array_equal(vi, v0):
+        fails.append('coefficient tensors were modified')
+    d = 2 if kind == 'spinless' else 4
+    if d ** L <= 1024:
+        ref = _num(Mo.molecular(tk.tolist(), vi.tolist()) if kind == 'spinless' else Mo.spin_molecular(tk.tolist(), vi.tolist()))
+        M = mpo.as_matrix()
+        if not close(M, ref, float(np.max(np.abs(ref))) if ref.size else 1.0):
+            fails.append('dense matrix differs from the second-quantised operator')
+    for i, A in enumerate(mpo.A):
+        fails += qsparse_fail(A, [mpo.qd, -mpo.qd, mpo.qD[i], -mpo.qD[i + 1]], f'A[{i}]')
+    if not opt:
+        nm = mpo.nid_map
+        for attr in dir(mpo):
+            if attr.startswith('nids_'):
+                for key, bymap in getattr(mpo, attr).items():
+                    if not isinstance(bymap, dict):
+                        bymap = {key: bymap}
+                    for bond, nid in bymap.items():
+                        if nid not in nm or nm[nid][0] != bond:
+                            fails.append(f'{attr}[{key}][{bond}] not located consistently by nid_map')
+                            return fails
+    return fails
+
 # -------------------------------------------------------------------------------------------
 
 def main():
